@@ -104,12 +104,25 @@ def _result_map(w, o):
         seams.set_perm(w, o["perm"])
     meth = r.apply_threshold_mapping if o["kind"] == "threshold" else r.apply_parity_mapping
     w.extra["last_result"] = None
-    m = w.call(meth, o.get("invert", False))
+    inv = bool(o.get("invert", False))
+    form = o.get("iform", "pos")
+    # the same flag in the forms a caller may write it
+    flag = {"npbool": np.bool_(inv), "int": int(inv)}.get(form, inv)
+    if form == "kw":
+        def call():
+            return meth(invert=flag)
+    elif form == "default" and not inv:
+        def call():
+            return meth()
+    else:
+        def call():
+            return meth(flag)
+    m = w.call(call)
     w.extra["last_result"] = m
     second = None
     if "perm2" in o:
         seams.set_perm(w, o["perm2"])
-        second = w.call(meth, o.get("invert", False))
+        second = w.call(call)
     w.extra["second_result"] = second
     if "out" in o:
         meta = w.m("res", o["r"])
@@ -189,7 +202,9 @@ class ResultUser(Client):
                     "conv": r.choice([None, True, False])}
         o = {"op": "result_map", "r": rid,
              "kind": r.choice(["threshold", "parity"]),
-             "invert": r.random() < 0.5, "perm": r.randrange(1 << 30)}
+             "invert": r.random() < 0.5, "perm": r.randrange(1 << 30),
+             "iform": r.choice(["pos", "pos", "kw", "kw", "npbool", "int",
+                                "default"])}
         if r.random() < 0.6:
             o["perm2"] = r.randrange(1 << 30)
         if len(ids) < 10 and r.random() < 0.5:
